@@ -4,6 +4,7 @@
    observed by the harness. *)
 From FMP Require Import Base.Bytes Base.Lts Model.Events Model.Skeleton Model.Props Model.Writer Model.Receiver
      Proofs.WriterProofs Proofs.ReceiverProofs Proofs.SkeletonProofs.
+From FMP Require Import Model.CodecCfg Proofs.CodecCfgProofs.
 From FMP Require Import Proofs.WriterProgress Proofs.WriterCancel.
 Open Scope Z_scope.
 
@@ -70,6 +71,10 @@ Theorem C08_cancelled_call_queues_cancel : forall ss ls st c s st' s',
     s_pc s' = PRet RCtx /\ exists k, find (cancel_nonce c) (senders st') = Some k /\ s_kind k = SCancelFrame /\ s_seq k = s_seq s.
 Proof. exact writer_cancelled_call_queues_cancel. Qed.
 
+(* a cancellation frame is queued behind whatever the writer already accepted without blocking the caller: handleCancel uses the asynchronous entry, nothing else does (regenerated) *)
+Theorem C08_cancellation_uses_the_async_hand_off : cdf_blocking_senders codecfacts_now = true /\ cdf_cancel_async codecfacts_now = true.
+Proof. exact codec_blocking_senders. Qed.
+
 Print Assumptions C08_cancel_unblocks.
 Print Assumptions C08_cancel_frame_queued.
 Print Assumptions C08_cancel_frame_can_move.
@@ -78,3 +83,4 @@ Print Assumptions C08_cancel_reaches_only_its_handler.
 Print Assumptions C08_generated_ok.
 Print Assumptions C08_cancelled_sender_returns.
 Print Assumptions C08_cancelled_call_queues_cancel.
+Print Assumptions C08_cancellation_uses_the_async_hand_off.
